@@ -235,7 +235,8 @@ def grammar_ok(text):
 def classify_known(atts):
     """Which listed known class explains a round-trip failure of this log (None = none).
     K1 (path equal to the divider), K3 (path wrapped in double quotes), K5 (path ending in a blank the reader
-    trims) and K7 (entry without ranges) were repaired in /repo: they excuse nothing any more."""
+    trims) were repaired in /repo and excuse nothing any more; K7 (entry without ranges) is repaired except for
+    a hash that is empty or ends in whitespace (the reader trims the line)."""
     for f in atts:
         p = C.uncps(f[0])
         if "\n" in p:
@@ -244,6 +245,8 @@ def classify_known(atts):
             h = C.uncps(e[0])
             if " " in h or "\n" in h:
                 return "C17-K8 hash containing a space or newline"
+            if len(e) == 1 and (h == "" or h != h.rstrip()):
+                return "C17-K7 entry with an empty range list whose hash is empty or ends in whitespace"
     return None
 
 
